@@ -6,6 +6,7 @@
 From Coq Require Import String List NArith Bool.
 Import ListNotations.
 Require Import Verif.Seq.SeqModel Verif.Seq.SeqFlat Verif.Seq.SeqProps Verif.Seq.SeqTree Verif.Seq.SeqBoxes Verif.Seq.SeqShapeProps Verif.Gen.SeqShape.
+Require Import Verif.Seq.Fmt Verif.Seq.FmtProps Verif.Seq.SeqOpts Verif.Seq.SeqOptsProps.
 
 (* ---- obligations against the current source ---- *)
 Theorem C13_source_shape_known : shape_known = true.
@@ -123,3 +124,155 @@ Theorem C13_group_boxes : forall V m fuel bbs starts groups d ev bx,
   /\ (forall x g mem g' mem', In (g, mem) bx -> In x mem -> In (g', mem') bx -> In x mem' -> g = g' /\ mem = mem').
 Proof. exact seq_boxes. Qed.
 Print Assumptions C13_group_boxes.
+
+(* ================= deepen round 3: labels, blackboxes, options ================= *)
+Local Open Scope string_scope.
+
+(* ---- obligations against the current source ---- *)
+(* the four repairs of the option layer are in: formats tried before use; `blackboxes` attributes of any shape read without
+   indexing past their end; the shared Upto not written; an endpoint's blackboxes in a map of their own *)
+Theorem C13_option_layer_is_repaired :
+  (fmt_checked_now, bbattr_guarded_now, onechar_in_heap_now, ep_layered_now) = (true, true, false, true).
+Proof. exact option_layer_repaired. Qed.
+Print Assumptions C13_option_layer_is_repaired.
+
+(* the texts of the regular expressions the scanners of Seq/Fmt.v stand for, the blackbox conventions of
+   MakeEndpointCollectionElement / visitEndpoint, the blackbox kinds of DoConstructSequenceDiagrams *)
+Theorem C13_label_source_shape :
+  List.length item_regexps = 11 /\ List.length match_consts = 3
+  /\ mece_rule = ("len(b.Comment) > 0", "none", "none")%string
+  /\ visiting_format = "%s <- %s e.appName e.endpointName"%string
+  /\ cut_rule = "(hitUpto && upto.ValueType != UpTo) || hitVisited"%string
+  /\ bb_kinds = ["cmdutils.BBApplication"; "cmdutils.BBEndpointCollection"; "cmdutils.BBCommandLine"]%string.
+Proof.
+  exact (conj (f_equal (@List.length _) item_regexps_expected) (conj (f_equal (@List.length _) match_consts_expected)
+        (conj mece_rule_expected (conj visiting_format_expected (conj cut_rule_expected bb_kinds_expected))))).
+Qed.
+Print Assumptions C13_label_source_shape.
+
+(* ---- the label pipeline: every format string, every value map: a label or one of the four announced panics; the
+   parser's fuel (one unit per byte of the format) is never used up. rx = compiling and matching the regular expression
+   of a `%(var~/re/...)` - the one thing that is a parameter ---- *)
+Theorem C13_format_total : forall rx self A, parse rx self A <> PFuel.
+Proof. exact fmt_total. Qed.
+Print Assumptions C13_format_total.
+
+Theorem C13_format_label_or_panic : forall rx self A, (exists l, parse rx self A = POk l) \/ (exists k, parse rx self A = PPanic k).
+Proof. exact fmt_label_or_panic. Qed.
+Print Assumptions C13_format_label_or_panic.
+
+(* whether, and how, a format panics is decided by the format alone - never by the attribute values *)
+Theorem C13_format_panic_decided_by_format : forall rx self A A', outcome_kind (parse rx self A) = outcome_kind (parse rx self A').
+Proof. exact fmt_panic_independent_of_values. Qed.
+Print Assumptions C13_format_panic_decided_by_format.
+
+(* so the trial run of FormatParser.Check (no values) decides for every later use *)
+Theorem C13_checked_format_never_panics : forall rx self, format_ok rx self = true -> forall A, exists l, parse rx self A = POk l.
+Proof. exact fmt_checked_never_panics. Qed.
+Print Assumptions C13_checked_format_never_panics.
+Example C13_checked_format_nonvacuous : format_ok rx_none "%(@status?<color red>%(appname)</color>|%(appname))" = true.
+Proof. vm_compute. reflexivity. Qed.
+
+Theorem C13_unchecked_format_always_panics : forall rx self, format_ok rx self = false -> forall A, exists k, parse rx self A = PPanic k.
+Proof. exact fmt_unchecked_always_panics. Qed.
+Print Assumptions C13_unchecked_format_always_panics.
+
+(* "never a panic" is false for the parser itself (its unit tests pin the panics): the shortest witnesses *)
+Theorem C13_format_no_panic_refuted :
+  parse rx_none "%(" [] = PPanic MissingVariable /\ parse rx_none "%(a=='" [] = PPanic MissingCondValue
+  /\ parse rx_none "%(a" [] = PPanic UnclosedExpansion /\ parse rx_none "%(a~/(/)" [] = PPanic BadRegexp.
+Proof. exact fmt_no_panic_refuted. Qed.
+Print Assumptions C13_format_no_panic_refuted.
+
+(* with the default formats of the command line the labels are the names *)
+Theorem C13_default_formats_are_names : forall rx,
+  (forall p, label_endpoint rx "%(epname)" p = POk (escape_nl (p_epname p)))
+  /\ (forall n ctl a, label_app rx "%(appname)" n ctl a = POk (escape_nl n)).
+Proof. intros rx. exact (conj (label_endpoint_default rx) (label_app_default rx)). Qed.
+Print Assumptions C13_default_formats_are_names.
+
+(* MergeAttributes: the keys of both maps, the endpoint's value over the application's (a Go map has each key once) *)
+Theorem C13_merge_attributes : forall app ep k,
+  ahas k (merge_attributes app ep) = (ahas k ep || ahas k app)%bool
+  /\ (NoDup (map fst app) -> NoDup (map fst ep) -> aget k (merge_attributes app ep) = if ahas k ep then aget k ep else aget k app).
+Proof. intros app ep k. exact (conj (merge_attributes_keys app ep k) (merge_attributes_value app ep k)). Qed.
+Print Assumptions C13_merge_attributes.
+
+(* ---- blackboxes: nothing below a blackbox is drawn, everything above is: the arrows of a diagram are the pre-order of
+   the call tree of the run WITHOUT blackboxes, pruned below every cut point ---- *)
+Theorem C13_blackbox_prunes : forall V m fuel bbs a e d ev,
+  gen V m fuel bbs [(a,e)] = Ok (d, ev) ->
+  arrows ev = preorder (prune (cutf (make_bbs bbs)) (full_tree m fuel [] None a e)).
+Proof. exact seq_blackbox_prunes. Qed.
+Print Assumptions C13_blackbox_prunes.
+
+(* the same for every walk of a run with several entries (the map of an entry = the blackboxes + "see below" markers) *)
+Theorem C13_walk_is_pruned_tree : forall m bbs fuel inprog from a e,
+  ref_calls m bbs fuel inprog from a e = preorder (prune (cutf bbs) (full_tree m fuel inprog from a e)).
+Proof. exact ref_calls_pruned. Qed.
+Print Assumptions C13_walk_is_pruned_tree.
+
+(* which entries of the option cut: one with a note (one character or many; first entry for its key), never one with an
+   empty note *)
+Theorem C13_noted_blackbox_cuts : forall l b,
+  (forall b', In b' l -> bb_clen b' <> C0) -> first_for (bb_key b) l = Some b -> bb_cut b = true -> cutf (make_bbs l) (bb_key b) = true.
+Proof. exact noted_blackbox_cuts. Qed.
+Print Assumptions C13_noted_blackbox_cuts.
+
+Theorem C13_empty_note_never_cuts : forall l k, (forall b, In b l -> bb_key b = k -> bb_clen b = C0) -> cutf (make_bbs l) k = false.
+Proof. exact empty_note_never_cuts. Qed.
+Print Assumptions C13_empty_note_never_cuts.
+
+(* ---- the option layer ---- *)
+(* a `blackboxes` attribute of any shape is read without a panic (repaired source); before: nil dereference / index *)
+Theorem C13_blackboxes_attribute_total : (forall l, transform_bbs true l <> OPanic) /\ (forall bbs m k, to_uptos true m bbs k <> OPanic).
+Proof. exact (conj guarded_transform_total guarded_to_uptos_total). Qed.
+Print Assumptions C13_blackboxes_attribute_total.
+
+Theorem C13_blackboxes_attribute_refuted_before_repair :
+  transform_bbs false [None] = OPanic /\ to_uptos false [] [["A <- B"%string]] KApplication = OPanic.
+Proof. exact unguarded_blackboxes_attribute_refuted. Qed.
+Print Assumptions C13_blackboxes_attribute_refuted_before_repair.
+
+(* one diagram leaves every note of the shared blackbox table as it was (only visit counts change): what the next
+   diagram of the application sees is what the attribute said *)
+Theorem C13_diagram_keeps_notes : forall rx V m T OV out title epfmt appfmt group entries u d u2 w,
+  ov_onechar_in_heap OV = false ->
+  generate rx V OV m T out title epfmt appfmt group entries u = OOk (d, u2, w) -> same_notes u u2.
+Proof. exact generate_keeps_notes. Qed.
+Print Assumptions C13_diagram_keeps_notes.
+Example C13_diagram_keeps_notes_nonvacuous : ov_onechar_in_heap ov_repaired = false. Proof. reflexivity. Qed.
+
+Theorem C13_one_char_note_refuted_before_repair :
+  n_arrows (w_run {| ov_fmt_checked := true; ov_bbattr_guarded := true; ov_onechar_in_heap := true; ov_ep_layered := true; ov_ep_empty_reported := false |}
+                  [Some ["A01 <- E00"; "x"]] [] "%(epname)")%string = Some [3; 7]
+  /\ n_arrows (w_run ov_repaired [Some ["A01 <- E00"; "x"]] [] "%(epname)")%string = Some [3; 5]
+  /\ n_arrows (w_run ov_repaired [] [] "%(epname)")%string = Some [4; 7].
+Proof. exact one_char_note_refuted_before_repair. Qed.
+Print Assumptions C13_one_char_note_refuted_before_repair.
+
+Theorem C13_shared_key_refuted_before_repair :
+  n_arrows (w_run {| ov_fmt_checked := true; ov_bbattr_guarded := true; ov_onechar_in_heap := false; ov_ep_layered := false; ov_ep_empty_reported := false |}
+                  [Some ["A01 <- E00"; "note"]] [Some ["A01 <- E00"; "mine"]] "%(epname)")%string = Some [3; 7]
+  /\ n_arrows (w_run ov_repaired [Some ["A01 <- E00"; "note"]] [Some ["A01 <- E00"; "mine"]] "%(epname)")%string = Some [3; 5].
+Proof. exact shared_key_refuted_before_repair. Qed.
+Print Assumptions C13_shared_key_refuted_before_repair.
+
+Theorem C13_format_panic_refuted_before_repair :
+  w_run ov_before [] [] "%(epname"%string = OPanic /\ w_run ov_repaired [] [] "%(epname"%string = OErr.
+Proof. exact format_panic_refuted_before_repair. Qed.
+Print Assumptions C13_format_panic_refuted_before_repair.
+
+(* a description of the code, not a requirement: an endpoint's blackbox with an empty note is not in force and is not reported *)
+Theorem C13_empty_note_is_silently_not_in_force :
+  n_arrows (w_run ov_repaired [] [Some ["A01 <- E00"; ""]] "%(epname)")%string = n_arrows (w_run ov_repaired [] [] "%(epname)")%string
+  /\ (match w_run ov_repaired [] [Some ["A01 <- E00"; ""]] "%(epname)"%string with OOk (_, w) => w | _ => ["?"]%string end) = [].
+Proof. exact empty_note_is_silently_not_in_force. Qed.
+Print Assumptions C13_empty_note_is_silently_not_in_force.
+
+(* ---- the in-progress set: restored by every call that returns, so on the way down it is exactly the current path
+   (a list with push / remove-one = the counter map of visitor.go: present iff the count is at least one) ---- *)
+Theorem C13_in_progress_restored : forall V m fuel bbs s from a e caller s',
+  visit_endpoint V m fuel bbs s from a e caller = Ok s' -> visited s' = visited s.
+Proof. exact visit_endpoint_visited. Qed.
+Print Assumptions C13_in_progress_restored.
